@@ -11,6 +11,7 @@ import CSD.Model.RPDAC
 import CSD.Model.HashRP
 import CSD.Model.RPDACImage
 import CSD.Model.HRPDACImage
+import CSD.Model.BlocksImage
 import CSD.Driver.Util
 
 namespace CSD.Driver
@@ -385,6 +386,36 @@ def checkHrpdacImg (img el ml ts n occ : String) : String :=
     if d.rp.cdac.listLength != nat el then "V dac-list-length-differs-from-elements" else
     "V ok"
 
+
+/-- The saved image of a real block dictionary: consumed exactly by the model loader, reproduced byte for byte
+by the model writer, with the header, first strings, starting IDs and part sizes of the object
+(`CSD.BlocksImg.load_save`); the parts partition the input: their sizes add up to the number of strings, the
+starting IDs are the running sums, and every first string is the member at that position. -/
+def checkBlocksImg (strsHex img ml cs sq np firsts starts pel : String) : String :=
+  let nat (s : String) := s.toNat?.getD 0
+  let S : List Str := (splitComma strsHex).map unhex
+  let bytes := unhex img
+  match BlocksImg.load (bytes ++ [0x55, 0xaa]) with
+  | none => "V model-loader-refuses-the-image"
+  | some (d, rest) =>
+    if rest != [0x55, 0xaa] then "V loader-does-not-consume-exactly-the-image" else
+    if BlocksImg.save d != bytes then "V model-save-differs-from-the-image" else
+    if d.maxlength != nat ml || d.cutSize != nat cs || d.stringsQty != nat sq then "V header-differs" else
+    if d.parts.length != nat np || d.samples.length != nat np || d.starts.length != nat np then "V part-count-differs" else
+    let fs : List Str := (splitComma firsts).map fun h => if h == "e" then [] else unhex h
+    if d.samples != fs then "V first-strings-differ" else
+    if d.starts != (splitComma starts).map nat then "V starting-ids-differ" else
+    let sizes := d.parts.map (·.elements)
+    if sizes != (splitComma pel).map nat then "V part-sizes-differ" else
+    if sizes.foldl (· + ·) 0 != S.length || d.stringsQty != S.length then "V parts-do-not-add-up-to-the-input" else
+    -- running sums and first strings against the input
+    let rec go : List Nat → List Nat → List Str → Nat → Bool
+      | sz :: szs, st :: sts, f :: fs, acc => st == acc && S[acc]? == some f && go szs sts fs (acc + sz)
+      | [], [], [], _ => true
+      | _, _, _, _ => false
+    if !(go sizes d.starts d.samples 0) then "V starting-ids-or-first-strings-do-not-follow-the-input" else
+    "V ok"
+
 def runCheckStreams (c : Case) (emit : Nat → String → IO Unit) : IO Unit := do
   let mut k := 0
   for op in c.ops do
@@ -399,6 +430,7 @@ def runCheckStreams (c : Case) (emit : Nat → String → IO Unit) : IO Unit := 
     | ["rdskip"] => emit k "V ok"
     | ["richk", img, el, ml, t, mc, rules] => emit k (checkRpdacImg img el ml t mc rules)
     | ["hichk", img, el, ml, ts, n, occ] => emit k (checkHrpdacImg img el ml ts n occ)
+    | ["bichk", strs, img, ml, cs, sq, np, firsts, starts, pel] => emit k (checkBlocksImg strs img ml cs sq np firsts starts pel)
     | "bv" :: impl :: par :: n :: h :: _ => emit k (bvLine impl (par.toNat?.getD 0) (n.toNat?.getD 0) h)
     | "bvh" :: _ :: _ :: n :: h :: _ =>
       -- long vectors: the harness checks every select and a grid of rank/access against the plain definitions
